@@ -124,7 +124,9 @@ class C06(Spec):
             return wrap(a) + rng.choice(['/', ' / ']) + wrap(self.expr(rng, depth - 1, names, prefixes))
         if r < 0.92:
             n = rng.choice([2, 2, 3, -1, -2, 0, 1, 4, -3])
-            return wrap(a) + '**' + str(n)
+            if '**' in a:        # no power of a power: keeps the factors inside the binary64 range
+                return a
+            return (a if IDENT.fullmatch(a) or a.isdigit() else '(' + a + ')') + '**' + str(n)
         if r < 0.96:
             return str(rng.choice([1, 1, 2, 1000])) + '/' + wrap(a)
         return wrap(a) + rng.choice(['*', '/']) + str(rng.choice([2, 3, 10, 1000]))
@@ -215,7 +217,8 @@ class C06(Spec):
         return c['kind'] in ('row', 'seq') and res.get('res', '__none__') != '__none__'
 
     def kind(self, c, res):
-        return c.get('cls')
+        k = res.get('kind') if isinstance(res, dict) else None
+        return k if k and k.startswith('outside') else c.get('cls')
 
     def shrink(self, c):
         if c['kind'] == 'row':
